@@ -1,9 +1,13 @@
 // package-dir: pkg/engine
 // property: C11
 // bound: quick: every directed graph without self loops, one relation, on 5 nodes with at most 5 edges
-//        (21,700 edge sets), every root, direction "out" and "both", maxDepth 1..3; thorough
-//        (VERIF_TIER=thorough): in addition every graph on 6 nodes with at most 6 edges (768,212 edge
-//        sets), direction "out", maxDepth 3
+//        (21,700 edge sets), every root, direction "out" and "both", maxDepth 1..3, plus every graph on 4
+//        nodes with at most 4 edges in which node 1 is a graph-only entity (edges, no vector: it is never in
+//        the scope, the nodes behind it are), plus every graph on 6
+//        nodes with at most 6 edges (768,212 edge sets) for the root n0, direction "out", maxDepth 3 (every
+//        other root of such a graph is the root n0 of a relabelled graph of the same family); thorough
+//        (VERIF_TIER=thorough): the 5-node family and every graph on 6 nodes with at most 6 edges, every
+//        root, direction "out", maxDepth 3
 // rule: each (graph, root, direction, maxDepth) is run once against the real resolveGraphFilter (the graph
 //        scope of VSearch / VSearchGraph); the ids in the returned scope must equal the nodes within maxDepth
 //        hops of the root (reference breadth-first search, edges followed in their direction for "out",
@@ -42,9 +46,12 @@ func TestGovcBounded(t *testing.T) {
 		return
 	}
 	explored, violations, nontrivial, samples := 0, 0, 0, 0
-	run := func(n int, maxEdges int, dirs []string, depths []int, prefix string) {
+	run := func(n int, maxEdges int, roots int, dirs []string, depths []int, prefix string, novec int) {
 		name := func(i int) string { return fmt.Sprintf("%s%d", prefix, i) }
 		for i := 0; i < n; i++ {
+			if i == novec {
+				continue // a graph-only entity: it has edges but no vector, the traversal must pass through it
+			}
 			if err := eng.VAdd("idx", name(i), []float32{float32(i), 1}, nil); err != nil {
 				fmt.Println("GOVC-BOUNDED-ERROR", err)
 				return
@@ -80,7 +87,10 @@ func TestGovcBounded(t *testing.T) {
 				if dir == "both" {
 					adj = und
 				}
-				for root := 0; root < n; root++ {
+				for root := 0; root < roots; root++ {
+					if root == novec {
+						continue
+					}
 					d := make([]int, n)
 					for i := range d {
 						d[i] = -1
@@ -102,7 +112,7 @@ func TestGovcBounded(t *testing.T) {
 						var want []string
 						far := false
 						for i := 0; i < n; i++ {
-							if d[i] >= 0 && d[i] <= depth {
+							if d[i] >= 0 && d[i] <= depth && i != novec {
 								want = append(want, name(i))
 							}
 							if d[i] == depth {
@@ -154,9 +164,12 @@ func TestGovcBounded(t *testing.T) {
 			}
 		}
 	}
-	run(5, 5, []string{"out", "both"}, []int{1, 2, 3}, "s")
+	run(5, 5, 5, []string{"out", "both"}, []int{1, 2, 3}, "s", -1)
+	run(4, 4, 4, []string{"out", "both"}, []int{1, 2, 3}, "e", 1)
 	if os.Getenv("VERIF_TIER") == "thorough" {
-		run(6, 6, []string{"out"}, []int{3}, "u")
+		run(6, 6, 6, []string{"out"}, []int{3}, "u", -1)
+	} else {
+		run(6, 6, 1, []string{"out"}, []int{3}, "q", -1)
 	}
 	fmt.Printf("GOVC-BOUNDED-DONE explored=%d nontrivial=%d violations=%d\n", explored, nontrivial, violations)
 }
